@@ -309,8 +309,17 @@ where
     // Always iterate at least once (adding 2 * tol to the sum to get into the loop is
     // absorbed by rounding when tol is below the rounding unit of the sum)
     let mut first_iteration = true;
-    while first_iteration || (last_sum_sq - sum_sq).abs() > tol {
+    // The sums of squares of the iterations before the last one: with a tolerance below the
+    // rounding of the sum the converged iteration alternates between parameter vectors a
+    // rounding error apart and the same handful of sums come back for ever; a sum that is exactly
+    // one of the earlier ones means that this cycle has been entered
+    let mut earlier_sum_sq: [Option<N::RealField>; 16] = [None; 16];
+    while first_iteration
+        || ((last_sum_sq - sum_sq).abs() > tol && !earlier_sum_sq.contains(&Some(sum_sq)))
+    {
         first_iteration = false;
+        earlier_sum_sq.rotate_right(1);
+        earlier_sum_sq[0] = Some(last_sum_sq);
         last_sum_sq = sum_sq;
         // Get right side of iteration equation
         let diff = &ys - &evaluation;
@@ -446,8 +455,17 @@ where
     // Always iterate at least once (adding 2 * tol to the sum to get into the loop is
     // absorbed by rounding when tol is below the rounding unit of the sum)
     let mut first_iteration = true;
-    while first_iteration || (last_sum_sq - sum_sq).abs() > tol {
+    // The sums of squares of the iterations before the last one: with a tolerance below the
+    // rounding of the sum the converged iteration alternates between parameter vectors a
+    // rounding error apart and the same handful of sums come back for ever; a sum that is exactly
+    // one of the earlier ones means that this cycle has been entered
+    let mut earlier_sum_sq: [Option<N::RealField>; 16] = [None; 16];
+    while first_iteration
+        || ((last_sum_sq - sum_sq).abs() > tol && !earlier_sum_sq.contains(&Some(sum_sq)))
+    {
         first_iteration = false;
+        earlier_sum_sq.rotate_right(1);
+        earlier_sum_sq[0] = Some(last_sum_sq);
         last_sum_sq = sum_sq;
         // Get right side of iteration equation
         let diff = &ys - &evaluation;
